@@ -27,11 +27,13 @@ VarNames == {"a", "b", "n", "m", "c"} \cup (IF Deep THEN {"d"} ELSE {})
 
 LabelMenu(L) == {IxAll, IxSc(L[Len(L)]), IxSc(L[1] + 1), IxLi(Rev(L)), IxLi(<<L[1]>>), IxLi(<<>>), IxLi(<<L[1], L[1]>>),
                  IxMk([i \in 1..Len(L) |-> i # 1 \/ Len(L) = 1]), IxSl(<<L[1]>>, <<L[Len(L)]>>, <<>>), IxSl(<<>>, <<L[1]>>, <<>>)}
-                \cup (IF Len(L) >= 3 THEN {IxLi(<<L[Len(L)], L[1], L[2]>>)} ELSE {})          \* a rotation: neither sorted nor reversed
+                \cup (IF Len(L) >= 3 THEN {IxLi(<<L[Len(L)], L[1], L[2]>>),         \* a rotation: neither sorted nor reversed
+                                            IxLi(<<L[1], L[1], L[Len(L)]>>)}          \* first and last position at the ends, a repeat and a gap between
+                      ELSE {})
 PosMenu(n) == {IxAll, IxSc(n - 1), IxSc(-n), IxSc(n), IxLi([i \in 1..n |-> n - i]), IxLi(<<0>>), IxLi(<<>>), IxMk([i \in 1..n |-> i # 1 \/ n = 1]),
                IxLi(<<-1, 0>>), IxLi(IF n >= 2 THEN <<-2, -1>> ELSE <<-1>>), IxLi([i \in 1..n |-> i - 1]),
                IxSl(<<1>>, <<>>, <<>>), IxSl(<<>>, <<-1>>, <<>>), IxSl(<<>>, <<>>, <<-1>>)}
-              \cup (IF n >= 3 THEN {IxLi(<<n - 1, 0, 1>>), IxLi(<<1, 2, 0>>)} ELSE {})
+              \cup (IF n >= 3 THEN {IxLi(<<n - 1, 0, 1>>), IxLi(<<1, 2, 0>>), IxLi(<<0, 0, n - 1>>)} ELSE {})
 RECURSIVE IdxTuples(_, _)
 IdxTuples(labs, mode) ==
   IF labs = <<>> THEN {<<>>}
